@@ -718,4 +718,130 @@ theorem raLoop_unlisted (cfg : Cfg) : ∀ (items : List (List Ev × Nat)) (s : S
   | nil => intro s; rfl
   | cons it rest ih => intro s; obtain ⟨pre, c⟩ := it; simp only [raLoop, List.foldl_cons]; exact ih _
 
+/-! ### whole schedules -/
+
+theorem inv_reapAll (s : State) (h : Inv s) : Inv (reapAll s) := by
+  have hsub : ∀ k, k ∈ s.calls.filter (alive s) → k ∈ s.calls := fun k hk => (List.mem_filter.1 hk).1
+  have hnd : (s.pinQ ++ s.unpinQ ++ (s.calls.filter (alive s)).map (·.op)).Nodup := by
+    refine List.Nodup.sublist ?_ h.nodup
+    exact List.Sublist.append (List.Sublist.refl _) (List.Sublist.map _ List.filter_sublist)
+  obtain ⟨h1,h2,h3,h4,h5,h6,h7,h8,h9,h10,h11,h12,h13,h14,h15,h16,h17,h18,h19,h20,h21⟩ := h
+  unfold reapAll
+  constructor <;> simp only [] <;> try assumption
+  case callLt => intro k hk; exact h4 k (hsub k hk)
+  case callCur => intro k hk; exact h11 k (hsub k hk)
+  case callKind => intro k hk; exact h14 k (hsub k hk)
+  case remoteCall =>
+    intro c j hc ht hp
+    obtain ⟨k0, hk0, e0⟩ := h18 c j hc ht hp
+    refine ⟨k0, List.mem_filter.2 ⟨hk0, ?_⟩, e0⟩
+    unfold alive
+    rw [e0]
+    cases hx : (s.ops j).cancelled
+    · rfl
+    · exact absurd (h7 c j hc hx) hp
+  case unpinEff => intro k hk; exact h19 k (hsub k hk)
+
+theorem inv_drainPin (cfg : Cfg) : ∀ (fuel : Nat) (s : State), Inv s → Inv (drainPin cfg fuel s) := by
+  intro fuel
+  induction fuel with
+  | zero => intro s h; exact h
+  | succ n ih =>
+    intro s h
+    unfold drainPin
+    split_ifs
+    · exact ih _ (inv_deqPin cfg s h)
+    · exact h
+
+theorem inv_drainUnpin : ∀ (fuel : Nat) (s : State), Inv s → Inv (drainUnpin fuel s) := by
+  intro fuel
+  induction fuel with
+  | zero => intro s h; exact h
+  | succ n ih =>
+    intro s h
+    unfold drainUnpin
+    split_ifs
+    · exact ih _ (inv_deqUnpin s h)
+    · exact h
+
+theorem inv_stabilize (cfg : Cfg) (s : State) (h : Inv s) : Inv (stabilize cfg s) := by
+  unfold stabilize
+  exact inv_drainUnpin _ _ (inv_drainPin cfg _ _ (inv_reapAll s h))
+
+theorem inv_recoverR (cfg : Cfg) (s : State) (ls : Bool) (c : Nat) (h : Inv s) : Inv (recoverR cfg s ls c).1 :=
+  inv_recoverWith cfg s c _ h (statusR_sound h ls c)
+
+theorem inv_stepR (cfg : Cfg) (m : MState) (e : EvR) (h : Inv m.s) : Inv (stepR cfg m e).s := by
+  cases e with
+  | base e => exact inv_step cfg m.s e h
+  | recover c => exact inv_recoverR cfg m.s m.ls c h
+  | recoverAll items =>
+    refine inv_raLoop cfg _ _ m.s h (fun _ _ hl => listingR_sound h hl) ?_
+    intro it hit e he
+    obtain ⟨it0, _, rfl⟩ := List.mem_map.1 hit
+    exact (List.mem_filter.1 he).2
+  | lsFail on => exact h
+  | stabilize => exact inv_stabilize cfg m.s h
+
+theorem inv_runR (cfg : Cfg) : ∀ (es : List EvR) (m : MState), Inv m.s → Inv (runR cfg m es).s := by
+  intro es
+  induction es with
+  | nil => intro m h; exact h
+  | cons e es ih => intro m h; exact ih (stepR cfg m e) (inv_stepR cfg m e h)
+
+theorem ongoing_statusR (s : State) (ls : Bool) (c : Nat) : ongoing (statusR s ls c) = ongoing (statusOf s c) := by
+  unfold statusR statusOf
+  cases s.cur c with
+  | some i => rfl
+  | none =>
+    simp only []
+    cases s.shared c with
+    | none => rfl
+    | some p =>
+      simp only []
+      cases p.kind <;> simp only []
+      cases ls <;> simp only [Bool.false_eq_true, if_false, if_true] <;> split_ifs <;> rfl
+
+theorem isError_statusR (s : State) (ls : Bool) (c : Nat) (h : isError (statusOf s c) = true) :
+    isError (statusR s ls c) = true := by
+  unfold statusR statusOf at *
+  cases hc : s.cur c with
+  | some i => rw [hc] at h; exact h
+  | none =>
+    rw [hc] at h; simp only [] at h ⊢
+    cases hsh : s.shared c with
+    | none => rw [hsh] at h; exact h
+    | some p =>
+      rw [hsh] at h; simp only [] at h ⊢
+      cases hk : p.kind <;> simp only [hk] at h ⊢ <;> try exact h
+      cases ls <;> simp only [Bool.false_eq_true, if_false, if_true]
+      · rfl
+      · exact h
+
+theorem quiescent_R (n : Nat) (s : State) (ls : Bool) : quiescent n (observeR s ls) = quiescent n (observe s) := by
+  unfold quiescent observeR
+  simp only [ongoing_statusR]
+  rfl
+
+theorem matchOrError_R {s : State} {c : Nat} (ls : Bool) (h : matchOrError (observe s) c = true) :
+    matchOrError (observeR s ls) c = true := by
+  unfold matchOrError at *
+  simp only [Bool.or_eq_true] at h ⊢
+  rcases h with h | h
+  · exact Or.inl h
+  · exact Or.inr (isError_statusR s ls c h)
+
+theorem obsTrace_inv (cfg : Cfg) : ∀ (blocks : List (List EvR)) (m : MState), Inv m.s →
+    ∀ o ∈ obsTrace cfg m blocks, ∃ s ls, Inv s ∧ o = observeR s ls := by
+  intro blocks
+  induction blocks with
+  | nil => intro m _ o ho; cases ho
+  | cons b rest ih =>
+    intro m h o ho
+    have h1 := inv_runR cfg b m h
+    simp only [obsTrace, List.mem_cons] at ho
+    rcases ho with e | e
+    · exact ⟨_, _, h1, e⟩
+    · exact ih _ h1 o e
+
 end CV.C05
